@@ -91,9 +91,64 @@ def percell_part(ctx):
                 ctx.violation('run_type_assignment differs from the per-cell recursion map_one', desc, no_input=True)
 
 
+def company_size_part(ctx):
+    """(iii) the kernels behind a vote on MANY cells at once: correlation_nearest_neighbors / correlation_dot /
+    tally_votes on queries of 255..257, 65535..65537 and ~70 000 cells (a chunk may hold any number of cells: chunk
+    sizes above 65 536 are legal) vs the same cells handed over in blocks of a few thousand: per cell identical
+    (small integers: every product and sum is exact, so 'up to rounding' means equal)."""
+    import numpy as np
+    from cell_type_mapper.utils.distance_utils import correlation_nearest_neighbors, correlation_dot
+    rng = ctx.rng
+    nprng = np.random.default_rng(rng.randrange(2 ** 32))
+    sizes = [rng.choice([255, 256, 257]), rng.choice([65535, 65536, 65537]), rng.choice([70001, 131073, 98304 + rng.randrange(1, 999)])]
+    if not ctx.quick():
+        sizes += [65537, 131071, 131072, 200003]
+    for n in sizes:
+        ng = rng.randrange(3, 9)
+        nb = rng.randrange(2, 7)
+        base = nprng.integers(0, 12, size=(nb, ng)).astype(float)
+        base[:, 0] += np.arange(nb)                      # no constant reference row
+        query = nprng.integers(0, 12, size=(n, ng)).astype(float)
+        query[:, -1] += (np.arange(n) % 3)                # hardly any constant query row
+        ctx.count(('company-size', n, ng, nb), nontrivial=True)
+        ctx.dist('company_size', '<=257' if n <= 257 else ('65535..65537' if n <= 65537 else '>65537'))
+        try:
+            idx, corr = correlation_nearest_neighbors(baseline_array=base, query_array=query, return_correlation=True)
+            dot = correlation_dot(query, base) if n <= 70001 else None
+        except Exception as e:      # noqa
+            ctx.disagreements_checked += 1
+            ctx.violation(f'correlation_nearest_neighbors raised on a query of {n} cells: {type(e).__name__}: {e}',
+                          {'class': 'c06-company-size', 'n_cells': n, 'n_genes': ng, 'baseline': base.tolist(), 'seeded_by': 'VERIF_SEED'})
+            continue
+        bad = None
+        step = 4096
+        for a in range(0, n, step):
+            i2, c2 = correlation_nearest_neighbors(baseline_array=base, query_array=query[a:a + step], return_correlation=True)
+            if not np.array_equal(np.asarray(idx[a:a + step]), np.asarray(i2)) or \
+                    not np.allclose(np.asarray(corr[a:a + step]), np.asarray(c2), rtol=0, atol=1e-9):
+                w = int(np.nonzero((np.asarray(idx[a:a + step]) != np.asarray(i2)) |
+                                   (np.abs(np.asarray(corr[a:a + step]) - np.asarray(c2)) > 1e-9))[0][0]) + a
+                bad = (f'cell {w} of {n}: nearest reference {int(idx[w])} (correlation {float(corr[w])}) in the full query, '
+                       f'{int(i2[w - a])} ({float(c2[w - a])}) in a block of {min(step, n - a)} cells')
+                break
+            if dot is not None:
+                d2 = correlation_dot(query[a:a + step], base)
+                if not np.allclose(dot[a:a + step], d2, rtol=0, atol=1e-9):
+                    bad = f'correlation_dot differs for a cell in rows {a}..{a + step} of {n}'
+                    break
+        if bad:
+            ctx.disagreements_checked += 1
+            w = int(bad.split()[1]) if bad.startswith('cell') else 0
+            ctx.violation('the nearest reference of a cell depends on how many cells are mapped with it: ' + bad,
+                          {'class': 'c06-row-depends-on-company', 'kind': 'company-size', 'n_cells': n, 'n_genes': ng,
+                           'baseline': base.tolist(), 'cell': query[w].tolist(), 'cell_index': w,
+                           'query_rule': 'integers(0,12) from numpy default_rng seeded from the check PRNG; last column + (row % 3)'})
+
+
 def run(ctx):
     rng = ctx.rng
     percell_part(ctx)
+    company_size_part(ctx)
     ctx.rule = ('(i) real run_type_assignment with the recorded-choice oracle on cell lists and their permuted / thinned / '
                 'duplicated versions vs the per-cell recursion map_one of the model (tag 601); (ii) paired real run_mapping runs with bootstrap factor 1: a base query vs (a) a permutation of its cells, '
                 '(b) a subset, (c) a superset with added cells, (d) duplicated rows under new ids, (e) other chunk size / '
